@@ -1,8 +1,9 @@
 (** Extraction of the executable model to OCaml ([ExtrOcamlBasic] only). *)
 From Coq Require Import ExtrOcamlBasic NArith List.
-From DC Require Import Crc Frame.
+From DC Require Import Crc Frame Scratch.
 Extraction Language OCaml.
 Extraction "model.ml"
   N.add N.mul N.sub N.div N.modulo N.ltb N.leb N.eqb N.of_nat N.to_nat
   crc32 le32 of_le32 frame view_using legacy_using using_ok flip wf_bytesb
-  model_echo model_status.
+  model_echo model_status
+  run_trace init.
